@@ -25,7 +25,10 @@ import vlib
 
 LEVEL = "proof"
 MODULE = "Sqfs.Props.C11"
-REQUIRED = ["Sqfs.C11.insertSorted_perm", "Sqfs.C11.scan_perm_invariant", "Sqfs.C11.numbering_deterministic"]
+REQUIRED = ["Sqfs.C11.insertSorted_perm", "Sqfs.C11.insertSorted_sorted", "Sqfs.C11.scan_perm_invariant",
+            "Sqfs.C11.scan_perm_invariant_glob"]
+WITNESS_MODULE = "Sqfs.Witness.C11"
+WITNESS_THEOREMS = ["Sqfs.Witness.C11.scan_order_dependent", "Sqfs.Witness.C11.nohardlinks_agree", "Sqfs.Witness.C11.repaired_agree"]
 D16_KEY = "D16:hardlink-primary"
 
 F_NO_SOCK, F_NO_SLINK, F_NO_FILE, F_NO_BLK, F_NO_DIR, F_NO_CHR, F_NO_FIFO = 1, 2, 4, 8, 16, 32, 64
@@ -306,7 +309,7 @@ def gen_packdir_case(ctx, tree):
     return Case("packdir", tree, d, flags, defs)
 
 
-def gen_glob_case(ctx, tree, idx):
+def gen_glob_case(ctx, tree, idx, multi=False):
     """pack file: a few explicit entries, then one glob line"""
     r = ctx.rng
     d = {"uid": r.choice([0, 1000]), "gid": r.choice([0, 100]), "mtime": r.choice([0, 1700000000]), "mode": r.choice([0o755, 0o700])}
@@ -317,9 +320,11 @@ def gen_glob_case(ctx, tree, idx):
     lines, pre = [], []
     # explicit entries before the glob (some collide with scanned names on purpose, some create implicit parents)
     if r.random() < 0.6:
+        pool = [b"pre", b"a", b"zz", b"lib", b"usr", b"0", b"q", b"M"]
+        r.shuffle(pool)
         for _ in range(r.randint(1, 3)):
             kind = r.choice(["dir", "file", "slink", "pipe", "deep"])
-            nm = r.choice([b"pre", b"a", b"zz", b"lib", b"usr", b"0"])
+            nm = pool.pop() if r.random() < 0.9 else r.choice([b"a", b"usr"])
             path = (target + b"/" if target and r.random() < 0.5 else b"") + nm
             if kind == "dir":
                 lines.append(b"dir \"%s\" 0711 7 8" % path)
@@ -356,7 +361,9 @@ def gen_glob_case(ctx, tree, idx):
         opts.append(b"-keeptime"); gflags |= F_KEEP_TIME
     if r.random() < 0.15:
         opts.append(b"-nonrecursive"); gflags |= F_NO_REC
-    if r.random() < 0.3:
+    # a non-root target + a multiply-linked file fails in the pinned code whatever the order (the hard-link filter records
+    # the link target without cfg.prefix: "Resolving hard link '/x/a' -> 'c'"); keep most such cases meaningful with -nohardlinks
+    if r.random() < (0.8 if (target and multi) else 0.3):
         opts.append(b"-nohardlinks"); gflags |= F_NO_HL
     if r.random() < 0.35:
         allmask = F_NO_BLK | F_NO_CHR | F_NO_DIR | F_NO_FIFO | F_NO_FILE | F_NO_SLINK | F_NO_SOCK
@@ -462,6 +469,35 @@ def listing(root):
     return out[:400]
 
 
+def witness_gate(ctx):
+    """the negation for the pinned code (Sqfs/Witness/C11.lean) is part of the record: it must build and use no
+    disallowed axiom; it is not counted as an obligation of the property"""
+    import re
+    okb, log = ctx.lean_build([WITNESS_MODULE])
+    problems = []
+    if not okb:
+        problems.append("lake build %s failed: %s" % (WITNESS_MODULE, log[-1500:]))
+    else:
+        af = ctx.scratch / "Audit_C11_witness.lean"
+        af.write_text("import %s\n" % WITNESS_MODULE + "".join("#print axioms %s\n" % n for n in WITNESS_THEOREMS))
+        r = vlib.sh(["lake", "env", "lean", str(af)], cwd=str(vlib.LEAN))
+        text = " ".join((r.stdout + r.stderr).split())
+        if r.returncode != 0:
+            problems.append("witness audit failed: " + text[-1500:])
+        for n in WITNESS_THEOREMS:
+            m = re.search(r"'%s' depends on axioms: \[([^\]]*)\]" % re.escape(n), text)
+            ax = [a.strip() for a in m.group(1).split(",")] if m else []
+            if not m and not re.search(r"'%s' does not depend on any axioms" % re.escape(n), text):
+                problems.append("no axiom report for %s" % n)
+            bad = [a for a in ax if a and a not in vlib.ALLOWED_AXIOMS]
+            if bad:
+                problems.append("%s depends on %s" % (n, bad))
+    ctx.cov["witness"] = {"module": WITNESS_MODULE, "theorems": WITNESS_THEOREMS, "ok": not problems}
+    if problems:
+        ctx.violation("proof:C11-witness", "witness of D16 (Sqfs/Witness/C11.lean) no longer checks: " + " | ".join(problems)[:1200],
+                      {"broken": problems}, found_input=False)
+
+
 def build_harness(ctx):
     lib = ctx.build_lib("san")
     gs = str(vlib.REPO / "bin/gensquashfs/src")
@@ -491,6 +527,7 @@ def run(ctx):
     if not ok:
         ctx.violation("proof:C11", "proof obligations of C11 no longer check: " + " | ".join(problems)[:1500],
                       {"broken": problems, "theorems_file": "lean/Sqfs/Props/C11.lean"}, found_input=False)
+    witness_gate(ctx)
     harness = build_harness(ctx)
     counters = {"evaluations": 0, "d16": 0, "mismatch": 0}
     hist = {"trees": 0, "trees_with_multilink": 0, "packdir_cases": 0, "glob_cases": 0, "err_results": 0, "entries_total": 0,
@@ -540,6 +577,9 @@ def run(ctx):
         for k in range(2):
             one(gen_packdir_case(ctx, tree), facts, "packdir")
             hist["packdir_cases"] += 1
+        for k in range(2):
+            one(gen_glob_case(ctx, tree, 2 * t + k, facts[0]), facts, "glob")
+            hist["glob_cases"] += 1
         umount_all()
         shutil.rmtree(tree.root, ignore_errors=True)
 
